@@ -4,9 +4,9 @@ package main
 // identity), inlining of repo callees that can touch tracked state.
 
 import (
-	"os"
 	"fmt"
 	"go/types"
+	"os"
 	"strings"
 
 	"golang.org/x/tools/go/ssa"
